@@ -896,6 +896,7 @@ type mapIter struct {
 	m       *Map
 	pending []*mapEntry // live entries at the time of Range, not yet visited
 	seen    map[*mapEntry]bool
+	started bool
 }
 
 func (it *mapIter) next(ex *Exec) tuple {
@@ -918,9 +919,26 @@ func (it *mapIter) next(ex *Exec) tuple {
 	switch ex.job.mapOrder {
 	case "first":
 		pick = 0
+	case "rot":
+		// rotations of insertion order (what the gc runtime does for maps of
+		// up to 8 entries): one choice at the first step, then in order
+		if !it.started {
+			if len(live) > 1 {
+				ex.mapChoices++
+			}
+			pick = ex.choice(len(live))
+			if pick > 0 {
+				live = append(append([]*mapEntry{}, live[pick:]...), live[:pick]...)
+				pick = 0
+			}
+		}
 	default:
+		if len(live) > 1 {
+			ex.mapChoices++
+		}
 		pick = ex.choice(len(live))
 	}
+	it.started = true
 	e := live[pick]
 	it.pending = nil
 	for i, x := range live {
